@@ -140,6 +140,39 @@ def trace (ot : Option TaskDefn) (ps : PS) : List Dlv → List Status
   | [] => [ps.x.status]
   | m :: ms => ps.x.status :: trace ot (step ot 4 ps m.flag m.sn m.text).1 ms
 
+/-! ### run signals (`task_message.split_run_signal`) -/
+
+/-- `split_run_signal`: "failed/ERR" ↦ ("failed", some "ERR"), "failed" ↦ ("failed", none) -/
+def splitRunSignal (m : String) : String × Option String :=
+  let cs := m.toList
+  let pre := cs.takeWhile (· != '/')
+  match cs.dropWhile (· != '/') with
+  | [] => (String.ofList pre, none)
+  | _ :: rest => (String.ofList pre, some (String.ofList rest))
+
+/-- the message as `process_message` acts on it: a failure reported with a run signal (`failed/ERR`,
+`failed/SIGTERM` … — what job scripts send from their traps) and an abort (`aborted/<reason>`) are the
+task output `failed`: the same output completion, implied outputs, backward check, retry / failed state
+as the bare message `failed` (only the recorded event text differs).  Other texts are taken as they are. -/
+def canon (m : String) : String :=
+  match splitRunSignal m with
+  | (pre, some _) => if pre == "failed" || pre == "aborted" then "failed" else m
+  | (_, none) => m
+
+/-- a job vacation message `vacated/<SIGNAL>` (the batch system pre-empted the job and will run it again) -/
+def isVacated (m : String) : Bool :=
+  match splitRunSignal m with
+  | (pre, some _) => pre == "vacated"
+  | (_, none) => false
+
+/-- `process_message` for a vacation message (non-forced): dropped like any message while a retry is lined
+up; otherwise the task is believed to be back in the batch queue — status submitted (and not queued),
+submission try number reset; no output is involved (tasks with an output named `vacated` are not modelled). -/
+def vacateProxy (x : Proxy) : Proxy :=
+  if x.status == .waiting && x.submitNum > 0 && (x.subTry > 0 || x.execTry > 0) then x
+  else if x.status == .submitted then { x with subTry := 0 }
+  else { ((x.reset (status := some .submitted)).reset (queued := some false)) with subTry := 0 }
+
 /-! ### well-formedness of instance graphs assumed by the lifting theorems (checked by the drivers
 on every extracted graph) -/
 
@@ -173,7 +206,13 @@ def pollMatches (s : State) (p : Int) (n : String) (sn : Nat) : Bool :=
 def stepX (g : Graph) (s : State) : XOp → State
   | .base op => Sched.step g s op
   | .poll p n sn text =>
-    if pollMatches s p n sn then (processMessage g 4 (clearOp s) p n .polled sn text).1 else clearOp s
+    if pollMatches s p n sn then
+      if isVacated text then
+        match (clearOp s).get? p n with
+        | some x => (clearOp s).put (vacateProxy x)
+        | none => clearOp s
+      else (processMessage g 4 (clearOp s) p n .polled sn text).1
+    else clearOp s
 
 def runX (g : Graph) (ops : List XOp) : List State :=
   (ops.foldl (fun (acc : List State × State) op =>
